@@ -423,7 +423,9 @@ int main(int argc, char** argv) {
                         }
                         shot += "}";
                         shotsJson += (s ? "," : "") + shot;
-                        if (sstatus != "ok")
+                        // "keep_going": a host that executes one analysed program repeatedly carries on after an execution that
+                        // ended in a runtime error (the CLI stops at the first one)
+                        if (sstatus != "ok" && !(job->has("keep_going") && job->at("keep_going").b))
                             break;
                     }
                 }
